@@ -108,7 +108,7 @@ CONTROLS = {"pause": 2, "pause2": 1, "resume": 1, "cancel": 1}
 
 
 def strategy(tier):
-    return gen.scenario(CFG, flags=FLAGS, max_choices=60, controls=CONTROLS)
+    return gen.scenario(CFG, flags=FLAGS, max_choices=60, controls=CONTROLS, canceled=True)
 
 
 PARTS = [Part("status-invariant", run, strategy, {"quick": 2400, "thorough": 60000}, rule=RULE)]
